@@ -17,7 +17,7 @@ pub fn def05() -> PropDef {
     PropDef {
         info: PropInfo {
             id: "C05",
-            rule: "near-valid byte strings (generator of C06: all opcodes, register bytes, jump/call target classes, last-instruction kinds, 0-2 mutations) and structured programs with 0-2 byte-level mutations, kept only if the REAL default verifier accepts them (acceptance is the premise; rate reported); each accepted program is interpreted in a forked child on a random VM kind, packet, metadata buffer and helper set with an instruction budget. Oracle: the run returns Ok or Err (budget exhaustion = still running, fine); a panic, abort or fatal signal is a violation, with the panic location in the signature. Non-trivial = accepted program that executes >= 3 instructions and contains a jump or call; distinct by hash of program+input.",
+            rule: "near-valid byte strings (generator of C06: all opcodes, register bytes, jump/call target classes, last-instruction kinds, 0-2 mutations) and structured programs with 0-2 byte-level mutations, kept only if the REAL default verifier accepts them (acceptance is the premise; rate reported); each accepted program is interpreted in a forked child on a random VM kind, packet, metadata buffer, helper set and - in a third of the cases - one or two registered ranges of allowed memory, with an instruction budget. Oracle: the run returns Ok or Err (budget exhaustion = still running, fine); a panic, abort or fatal signal is a violation, with the panic location in the signature. Non-trivial = accepted program that executes >= 3 instructions and contains a jump or call; distinct by hash of program+input.",
             assumptions: &["instruction budget 20000 (hook H1) stands for 'keeps running'", "helpers are total functions of their arguments"],
         },
         run: run05,
@@ -47,11 +47,13 @@ pub struct Env {
     helpers: Vec<(u32, u8)>,
     /// register the helper ids the program calls (so that calls are reachable)
     register_called: u8,
+    /// ranges registered as allowed memory (inside a page the runner owns)
+    allowed: Vec<(u16, u16)>,
 }
 
 fn env() -> impl Strategy<Value = Env> {
-    (any::<u8>(), prop::collection::vec(any::<u8>(), 0..40), prop::collection::vec(any::<u8>(), 16..48), prop::collection::vec((any::<u32>(), 0u8..8), 0..3), any::<u8>())
-        .prop_map(|(vm_sel, pkt, mbuff, helpers, register_called)| Env { vm_sel, pkt, mbuff, helpers, register_called })
+    (any::<u8>(), prop::collection::vec(any::<u8>(), 0..40), prop::collection::vec(any::<u8>(), 16..48), prop::collection::vec((any::<u32>(), 0u8..8), 0..3), any::<u8>(), prop_oneof![2 => Just(vec![]), 1 => prop::collection::vec((0u16..4000, 1u16..200), 1..3)])
+        .prop_map(|(vm_sel, pkt, mbuff, helpers, register_called, allowed)| Env { vm_sel, pkt, mbuff, helpers, register_called, allowed })
 }
 
 pub fn make_case(prog: Vec<u8>, e: &Env) -> ExecCase {
@@ -69,6 +71,7 @@ pub fn make_case(prog: Vec<u8>, e: &Env) -> ExecCase {
         case.mbuff = e.mbuff.clone();
     }
     case.helpers = e.helpers.clone();
+    case.allowed = e.allowed.clone();
     for x in decode_prog(&case.prog) {
         if x.opc == CALL && x.src == 0 && e.register_called % 4 != 0 {
             case.helpers.push((x.imm as u32, (x.imm as u32 % 8) as u8));
